@@ -42,7 +42,7 @@ def literal_inputs():
             gid += 1
             roles = [('plain', traits, False)] + \
                     [('dump%d' % i, [t + '(dump)' if j == i else t for j, t in enumerate(traits)], False) for i in range(len(traits))] + \
-                    [('shared', traits, True)]
+                    [('shared', traits, True), ('sharedboth', [t + '(dump)' if j == 0 else t for j, t in enumerate(traits)], True)]
             for role, tl, shared in roles:
                 args = ', '.join(tl) + (', dump' if shared else '')
                 if mode == 'A':
@@ -88,6 +88,15 @@ class C19(Prop):
             req, meta = assemble(plan2, mode, items=items, extra_feats=['dump-shared'])
             meta.update(gid=gid, role='shared')
             out.append((req, meta))
+            # one entry dumped BOTH by its own `Trait(dump)` and by the shared `dump` of its list: worth the shared dump
+            if items:
+                i = gid % len(items)
+                its = list(items)
+                t, a = its[i]
+                its[i] = (t, ((a[0] if a else None), True))
+                req, meta = assemble(plan2, mode, items=its, extra_feats=['dump-both'])
+                meta.update(gid=gid, role='sharedboth%d' % i)
+                out.append((req, meta))
             # several #[derive_ex(..)] lists on one item: the shared `dump` of list k is worth exactly an entry-level
             # `dump` on each entry of list k and nothing on the entries of the other lists
             if len(items) >= 2:
@@ -172,7 +181,7 @@ class C19(Prop):
                                          observed=flat_got[:1500]))
                     continue
                 # the number of DUMP parts: shared dump dumps every entry that is not an error
-                if role == 'shared' and any(p[0] in ('IMPL', 'CONST') for p in got):
+                if role.startswith('shared') and any(p[0] in ('IMPL', 'CONST') for p in got):
                     failures.append(dict(**{'class': 'shared-dump-leaves-impls', 'mode': role},
                                          input=r.input_text(), expected='no impl survives', observed=[p[0] for p in got]))
                     continue
